@@ -288,6 +288,67 @@ func modeFuzz(c *Ctx) {
 			}
 		}
 	}
+	// the optional hooks left at their zero value: the spec route, unrouted
+	// requests and preflights with nothing installed
+	specName := c.Case.SpecName
+	if specName == "" {
+		specName = "openapi.yaml"
+	}
+	for _, f := range []string{"SpecFileHandler", "NotFoundHandler", "CORSHandler"} {
+		if fv := api.Elem().FieldByName(f); fv.IsValid() && fv.CanSet() {
+			fv.Set(reflect.Zero(fv.Type()))
+		}
+	}
+	for _, p := range []string{c.Base + "/" + specName, "/" + specName, c.Base + "/" + specName + "/", c.Base + "//" + specName, "/nowhere", c.Base, c.Base + "/"} {
+		for _, m := range []string{"GET", "HEAD", "POST", "OPTIONS", "BREW"} {
+			serve(NewRequest(m, p, "", nil, nil), "optional hooks not installed")
+			c.Stat("requests_without_optional_hooks", 1)
+		}
+	}
+	for _, op := range c.Ops {
+		if op.Spec != nil {
+			serve(NewRequest("OPTIONS", c.Base+c.canonicalPath(op), "", nil, nil), "optional hooks not installed")
+		}
+	}
+	// every operation's handler function is an http.Handler of its own (users
+	// mount them on other muxes, behind path-rewriting middlewares): whatever
+	// path arrives there, Parse returns a value or an error
+	for _, op := range c.Ops {
+		if op.Spec == nil {
+			continue
+		}
+		hf, ok := api.Elem().Field(op.FieldIndex).Interface().(http.Handler)
+		if !ok {
+			continue
+		}
+		canonPath := c.Base + c.canonicalPath(op)
+		var paths []string
+		for i := 0; i <= len(canonPath); i++ {
+			paths = append(paths, canonPath[:i])
+			if i == len(canonPath) || canonPath[i] == '/' {
+				paths = append(paths, canonPath[:i]+"/", canonPath[:i]+"//", canonPath[:i]+"/x/y/z")
+			}
+		}
+		paths = append(paths, "*", "/", "//", strings.TrimPrefix(canonPath, "/"), strings.ReplaceAll(canonPath, "/", "//"), "/somewhere/else/entirely")
+		for _, p := range paths {
+			r := NewRequest(op.Method, p, c.canonicalQuery(op), c.canonicalHeaders(op), nil)
+			w := newRec()
+			var pv any
+			parsePanic = nil
+			func() {
+				defer func() { pv = recover() }()
+				hf.ServeHTTP(w, r)
+			}()
+			c.Stat("direct_handler_requests", 1)
+			in := fmt.Sprintf("%s %q served by %s itself (not through the router)", op.Method, p, op.FieldName)
+			if pv == nil {
+				pv = parsePanic
+			}
+			if pv != nil {
+				c.Viol("panic", "Request.Parse() panicked: "+firstLine(fmt.Sprint(pv)), in, "value or error", fmt.Sprint(pv))
+			}
+		}
+	}
 }
 
 func kindOfParam(c *Ctx, s map[string]any) string {
